@@ -66,7 +66,7 @@ _cond("C14", [("MC_C03", "MC_C14_quick.cfg"), ("MC_COND", "MC_C14a_quick.cfg"), 
       "all factor kinds with R_f in {1, R_u}; conditional classes Cond, CondDiag, CondId, CondIdDiag; RBF and squared-exponential feature models (kernel expectations as exp-atoms from the semantic layer, replacing the property's quadrature oracle by the exact value); q an arbitrary Gaussian over (y,x)")
 
 PROPS["C04"] = {
-    "quick": [{"module": "MC_SESSION", "cfg": "MC_C04M_quick.cfg", "nprimes": 6, "sample_mod": 8,
+    "quick": [{"module": "MC_SESSION", "cfg": "MC_C04M_quick.cfg", "nprimes": 6, "sample_mod": 10,
                "require_acts": ["Multiply", "Hadamard", "GetDensity", "Normalize", "Product", "Slice", "Query"]},
               {"module": "MC_SESSION", "cfg": "MC_C04C_quick.cfg", "nprimes": 6,
                "require_acts": ["Transform", "CondOnX", "SetY", "UpdateSigma", "ConditionOn", "Marginal", "Update", "Slice"]},
